@@ -15,6 +15,7 @@ from .common import make_rodded, set_int_params, set_temps, make_unrodded
 
 MODULES = common.RR_MODULES + common.UR_MODULES + ['dassh.assembly']
 PROPERTY = 'C01'
+LEAN_LEMMAS = ['sweep_balance']        # /verif/lean/Ghost.lean, checked in the thorough tier
 FUNCTIONS = [
     'dassh.region_rodded:RoddedRegion._calc_coolant_int_temp', 'dassh.region_rodded:RoddedRegion._calc_int_sc_power',
     'dassh.region_rodded:RoddedRegion._calc_coolant_byp_temp', 'dassh.region_rodded:RoddedRegion.sc_mfr',
